@@ -1,10 +1,11 @@
 import EinxModel.Proofs.NotationPrintDefs
 import EinxModel.Proofs.NotationSimBack
+import EinxModel.Proofs.NotationFresh
 /-!
 # M1 Notation — the inconsistent-brackets check on a re-parsed printable expression
 
-If `x` has the shape of a printable `t` (numeric axes outside brackets, named axes with valid names), all numeric axes of
-`x` carry fresh names `unnamed.<id>`, and `t` passes the inconsistent-brackets check, then so does `x`.
+If `x` has the shape of a printable `t` (named axes with valid names), all numeric axes of `x` carry pairwise distinct fresh
+names `unnamed.<id>`, and `t` passes the inconsistent-brackets check, then so does `x`.
 -/
 namespace Einx.Notation
 
@@ -85,10 +86,10 @@ theorem occsL_sig (fresh : Bool) : ∀ (cs : List Expr), (fresh = true → Value
       (occsL_sig fresh cs (fun hf => (by have := h hf; simpa only [ValuedFreshL] using this : _ ∧ _).2) br m)
 end
 
-/-- Signatures of a printable expression: numeric axes are outside brackets, names are valid axis names or the anonymous one. -/
+/-- Signatures of a printable expression: names are valid axis names or the anonymous one. -/
 def GoodSig (s : OccSig) : Prop :=
   match s.1 with
-  | none => s.2 = false
+  | none => True
   | some n => isAxisName n = true ∨ n = anonName
 
 mutual
@@ -98,7 +99,7 @@ theorem sig_PT (inBr al : Bool) : ∀ (a : Expr), PT inBr al a = true → ∀ s 
     subst hs
     cases v with
     | none => simp only [PT] at h; exact Or.inl h
-    | some k => simp only [PT] at h; simpa [GoodSig] using h
+    | some k => simp only [GoodSig]
   | .flat i _ _, h, s, hs => by
     simp only [PT, Bool.and_eq_true] at h
     simp only [sig] at hs
@@ -199,6 +200,7 @@ theorem anonName_ne_unnamed (q : Nat) : anonName ≠ unnamedName q := by
 /-- If `x` has the shape of `preTree t` for a printable `t`, its numeric axes carry fresh names, and `t` has no axis name
     both inside and outside brackets, then neither has `x`. -/
 theorem conflict_free_of_shape {t x : Expr} (ht : PRoot t = true) (hx : x.shape = (preTree t).shape) (hf : ValuedFresh x)
+    (hG : G true true true x = true) (hnd : (Fresh.vnames x).Nodup)
     (hc : conflictNames (occs [] false t) = []) : conflictNames (occs [] false x) = [] := by
   apply Classical.byContradiction
   intro hne
@@ -220,9 +222,11 @@ theorem conflict_free_of_shape {t x : Expr} (ht : PRoot t = true) (hx : x.shape 
   simp only [GoodSig] at hg1 hg2
   cases s1n with
   | none =>
-    -- a numeric axis inside brackets: excluded by `PT`
-    simp only at hg1
-    rw [hr1.1, hg1] at hm1
+    -- a numeric axis inside brackets: its fresh name determines the occurrence
+    simp only at hr1
+    obtain ⟨q, hq⟩ := hr1.2 trivial
+    have := Fresh.fresh_unique true true true x hG hnd [] false o1 ho1 o2 ho2 q hq hn.symm
+    rw [this, hm2] at hm1
     cases hm1
   | some n1 =>
     simp only at hr1 hq1 hg1
